@@ -216,3 +216,48 @@ contract(M + ':Server.remove', types={'app_name': 'Name'},
                    ('Node.affinity_counters', 'lambda r: r == self or is_bucket(r)'),
                    ('Node.free_capacity', 'lambda r: is_bucket(r)')],
          props=['C01', 'C04'])
+
+contract(M + ':Server.restore', types={'app': 'Application', 'placement_expiry': 'Opt[Real]', 'return': 'Bool'},
+         requires=['inv_server(self)', 'inv_server_aff(self)', 'app.name not in self.apps'],
+         ensures=['inv_server(self)', 'inv_server_aff(self)',
+                  'app.lease == old(app.lease)',
+                  'result == old(fits_static(self, app))',
+                  'implies(result, app.server == self.name and '
+                  '   self.apps == dict_put(old(self.apps), app.name, app) and '
+                  '   vec_eq(self.free_capacity, old(self.free_capacity) - app.demand))',
+                  'implies(not result, self.apps == old(self.apps) and '
+                  '   vec_eq(self.free_capacity, old(self.free_capacity)) and app.server == old(app.server) and '
+                  '   self.affinity_counters == old(self.affinity_counters))',
+                  'app.placement_expiry == (placement_expiry if placement_expiry is not None '
+                  '                         else old(app.placement_expiry))'],
+         modifies=['self.free_capacity', 'self.apps', 'app.server', 'app.placement_expiry', 'app.lease',
+                   ('Node.affinity_counters', 'lambda r: r == self or is_bucket(r)'),
+                   ('Node.free_capacity', 'lambda r: is_bucket(r)')],
+         props=['C01', 'C03', 'C04', 'C07'])
+
+contract(M + ':Server.renew', types={'app': 'Application', 'return': 'Bool'},
+         ensures=['implies(not result, app.placement_expiry == old(app.placement_expiry))',
+                  'implies(app.lease == 0, result)'],
+         modifies=['app.placement_expiry'], props=['C01', 'C03'])
+
+contract(M + ':Server.remove_all', types={},
+         requires=['inv_server(self)', 'inv_server_aff(self)'],
+         ensures=['inv_server(self)', 'inv_server_aff(self)',
+                  'forall(lambda n: n not in self.apps, "Name")'],
+         modifies=['self.free_capacity', 'self.apps',
+                   ('Application.server', 'lambda a: True'), ('Application.evicted', 'lambda a: True'),
+                   ('Application.unschedule', 'lambda a: True'), ('Application.placement_expiry', 'lambda a: True'),
+                   ('Node.affinity_counters', 'lambda r: r == self or is_bucket(r)'),
+                   ('Node.free_capacity', 'lambda r: is_bucket(r)')],
+         props=['C01'])
+invariant(M + ':Server.remove_all', 0, 'for appname in list(self.apps)',
+          ['inv_server(self)', 'inv_server_aff(self)',
+           # keys not yet visited are still present, visited ones are gone, nothing else appeared
+           'forall(lambda n: (n in self.apps) == (n in at_loop_entry(self.apps) and '
+           '       not _pos(n) < _i), "Name")'])
+
+contract(M + ':Server.set_state', types={'state': 'State', 'since': 'Real'},
+         ensures=['self._state == state',
+                  'self._state_since == (old(self._state_since) if old(self._state) == state else since)'],
+         modifies=['self._state', 'self._state_since', ('Node.free_capacity', 'lambda r: is_bucket(r)')],
+         props=['C01', 'C08'])
